@@ -341,6 +341,12 @@ def install(eng):
     for tname in ('bool', 'str', 'list', 'tuple', 'dict', 'set', 'object', 'slice', 'frozenset'):
         pass
 
+    @reg('locals')
+    def _locals(eng, st, args, kw, node):
+        """locals(): the local names of the executing function as a read-only dictionary (names bound to values the model has)."""
+        from .engine import DictVal
+        return one(st, DictVal({k: v for k, v in st.env.items() if isinstance(k, str)}))
+
     @reg('type')
     def _type(eng, st, args, kw, node):
         v = args[0]
